@@ -1,6 +1,7 @@
 import DispatchVerif.Core.HeapOps
 import DispatchVerif.Core.TimerP
 import DispatchVerif.Core.TimerD
+import DispatchVerif.Core.TimerCfg
 /-! # C11 — timers and dispatch_after never fire early and always fire (the provable cores)
 
 `HeapP` is the interleaved double min-heap of `src/event/event.c` on one logical heap: `resift` is the hole-based
@@ -90,5 +91,30 @@ theorem reprogram_when_root_changes (a : Arr) (n k x : Nat) :
     (insertW a n x = false → insert a n x 0 = a 0) ∧ (removeW a n k = false → remove a n k 0 = a 0) ∧
     (updateW a k x = false → update a n k x 0 = a 0) ∧ updateW a 0 x = true :=
   ⟨insert_root a n x, remove_root a n k, update_root a n k x, update_root_flag a x⟩
+
+/-! ## what `dispatch_source_set_timer` makes of its arguments (`TimerCfg`: `_dispatch_timer_config_create`) -/
+
+/-- **"for all leeways": the target, and with it whether the timer is armed, does not depend on the leeway or the interval** - a
+    timer with a finite start is armed whatever its leeway (the sixth-round seed tested the *deadline*, which an unbounded leeway saturates) -/
+theorem timer_armed_whatever_leeway (start i l i' l' : Nat) (fc : TimeP.Clock) (u m w : Nat) :
+    TimerCfg.armed (TimerCfg.config start i l fc u m w) = TimerCfg.armed (TimerCfg.config start i' l' fc u m w) ∧
+    (TimerCfg.config start i l fc u m w).target = (TimerCfg.config start i' l' fc u m w).target :=
+  TimerCfg.armed_whatever_leeway start i l i' l' fc u m w
+
+/-- **the configured timer: the target is the decoded start (never earlier), the interval is in [1, INT64_MAX], the deadline is never
+    before the target nor beyond INT64_MAX, and a repeating timer's deadline is at most half an interval after its target** - for
+    every 64-bit start, interval and leeway -/
+theorem timer_config_bounds (start interval leeway : Nat) (fc : TimeP.Clock) (u m w : Nat) (hi : interval < TimeP.W) (hl : leeway < TimeP.W) :
+    (1 ≤ (TimerCfg.config start interval leeway fc u m w).interval ∧ (TimerCfg.config start interval leeway fc u m w).interval ≤ TimerCfg.I64MAX) ∧
+    (start ≠ TimeP.FOREVER → (TimeP.decode start w).2 ≠ 0 → (TimerCfg.config start interval leeway fc u m w).target = (TimeP.decode start w).2) ∧
+    ((TimerCfg.config start interval leeway fc u m w).target < TimerCfg.I64MAX →
+      (TimerCfg.config start interval leeway fc u m w).target ≤ (TimerCfg.config start interval leeway fc u m w).deadline ∧
+      (TimerCfg.config start interval leeway fc u m w).deadline ≤ TimerCfg.I64MAX ∧
+      ((TimerCfg.config start interval leeway fc u m w).interval < TimerCfg.I64MAX →
+        (TimerCfg.config start interval leeway fc u m w).deadline - (TimerCfg.config start interval leeway fc u m w).target ≤
+          (TimerCfg.config start interval leeway fc u m w).interval / 2)) :=
+  ⟨TimerCfg.interval_bounds start interval leeway fc u m w hi,
+   fun hs hv => TimerCfg.target_is_start start interval leeway fc u m w hs hv,
+   fun ht => TimerCfg.deadline_bounds start interval leeway fc u m w hi hl ht⟩
 
 end C11
